@@ -541,6 +541,29 @@ func runJoin(c *h.Ctx, jc JoinCase) {
 		return
 	}
 	jc.Segs = orig
+	// segments that contain the separator themselves ("crud/", "/a", "a/b"): the text of the result is the receiver
+	// followed by each non-empty segment behind one separator - nothing is merged, nothing is dropped
+	hasSlash := false
+	for _, sg := range orig {
+		hasSlash = hasSlash || strings.Contains(sg, "/")
+	}
+	if hasSlash {
+		wantText := jc.Base
+		for _, sg := range orig {
+			if sg == "" {
+				continue
+			}
+			if len(wantText) > 1 {
+				wantText += "/"
+			}
+			wantText += sg
+		}
+		if got.String() != wantText {
+			c.Fail("C15/join/text", "%q.Join(%q) = %q, the receiver followed by the segments behind one separator each is %q", jc.Base, orig, got.String(), wantText)
+		}
+		c.P.Class("join/segment-with-separator")
+		return
+	}
 	for _, sg := range orig {
 		if sg == "" {
 			// what an EMPTY segment contributes is not said; only the clauses above apply
@@ -576,6 +599,9 @@ var join = h.Define(P, "join", func(t *rapid.T) JoinCase {
 		segs[i] = rapid.SampledFrom(nonEmptySegs).Draw(t, "seg")
 		if rapid.IntRange(0, 5).Draw(t, "emptyseg") == 0 {
 			segs[i] = ""
+		}
+		if rapid.IntRange(0, 7).Draw(t, "slashseg") == 0 {
+			segs[i] = rapid.SampledFrom([]string{"crud/", "a/", "/", "/a", "a/b", "//", "a//", "/a/"}).Draw(t, "slashsegv")
 		}
 	}
 	if n == 0 {
